@@ -251,12 +251,21 @@ impl<'env> Executor<'env> {
 
         macro_rules! recurse_loop {
             ($capture:expr, $loop_object:expr) => {{
-                let Some(jump_target) = $loop_object.recurse_jump_target else {
+                let Some((instructions_id, jump_target)) = $loop_object.recurse_jump_target else {
                     bail!(Error::new(
                         ErrorKind::InvalidOperation,
                         "cannot recurse outside of recursive loop",
                     ))
                 };
+                // the jump target is only meaningful in the instructions the
+                // loop was compiled into.  An included template or a block
+                // can see the loop but cannot jump into it.
+                if instructions_id != state.instructions as *const Instructions<'_> as usize {
+                    bail!(Error::new(
+                        ErrorKind::InvalidOperation,
+                        "cannot recurse into a loop of a different template or block",
+                    ))
+                }
                 // the way this works is that we remember the next instruction
                 // as loop exit jump target.  Whenever a loop is pushed, it
                 // memorizes the value in `next_loop_iteration_jump` to jump
@@ -1169,7 +1178,8 @@ impl<'env> Executor<'env> {
                 iter,
                 depth,
                 flags & LOOP_FLAG_WITH_LOOP_VAR != 0,
-                (flags & LOOP_FLAG_RECURSIVE != 0).then_some(pc),
+                (flags & LOOP_FLAG_RECURSIVE != 0)
+                    .then_some((state.instructions as *const Instructions<'_> as usize, pc)),
                 current_recursion_jump,
             )),
             ..Frame::default()
